@@ -146,7 +146,7 @@ static IWDB find_db(uint32_t id) { for (struct iwdb *d = kv ? kv->first_db : 0; 
 
 static IWKV_OPTS mkopts(int trunc, int crc, size_t bufsz) {
   IWKV_OPTS o = { .path = kvpath, .oflags = trunc ? IWKV_TRUNC : 0, .random_seed = 20240504, .wal = { .enabled = true, .check_crc_on_checkpoint = crc != 0,
-    .wal_buffer_sz = bufsz, .savepoint_timeout_sec = 1000000, .checkpoint_timeout_sec = 2000000 } };
+    .wal_buffer_sz = bufsz, .savepoint_timeout_sec = 2000000000u, .checkpoint_timeout_sec = 4000000000u } };
   return o;
 }
 
